@@ -97,7 +97,9 @@ def timeout(duration, func, *args, **kwargs):
             ei = target_thread.exc_info
             # Python 2 had the three-argument raise statement; thanks to PEP
             # 3109 for showing how to convert that to valid Python 3 statements.
-            e = ei[0](ei[1])
+            # Re-raise the original exception object; constructing a new one
+            # fails for classes whose constructor needs other arguments
+            e = ei[1]
             e.__traceback__ = ei[2]
             e.exc_info = target_thread.exc_info
             raise e
